@@ -475,14 +475,21 @@ func PromoteOptionsToConstructor(selector Selector, optionNames []string) Rewrit
 					continue
 				}
 
-				// TODO: do it for every argument/assignment?
-				arg := opt.Args[0].DeepCopy()
-				arg.Type.Nullable = false
+				// every argument and assignment of the option is promoted: an
+				// option rewritten by map_to_index or struct_fields_as_arguments
+				// has several, and its assignments use all of them.
+				for _, optArg := range opt.Args {
+					arg := optArg.DeepCopy()
+					arg.Type.Nullable = false
 
-				builders[i].Constructor.Args = append(builders[i].Constructor.Args, arg)
-				// the constructor gets its own copy: later option rules must not
-				// write through to it
-				builders[i].Constructor.Assignments = append(builders[i].Constructor.Assignments, opt.Assignments[0].DeepCopy())
+					builders[i].Constructor.Args = append(builders[i].Constructor.Args, arg)
+				}
+
+				// the constructor gets its own copies: later option rules must not
+				// write through to them
+				for _, assignment := range opt.Assignments {
+					builders[i].Constructor.Assignments = append(builders[i].Constructor.Assignments, assignment.DeepCopy())
+				}
 
 				builders[i].AddToVeneerTrail(fmt.Sprintf("PromoteOptionsToConstructor[%s]", optName))
 			}
